@@ -1,7 +1,8 @@
 (* Props/C05.v — property C05: rolling outputs are input-length and null exactly during warm-up. *)
-From Coq Require Import Reals List.
-From Tevec Require Import Base.Prelude Base.Num Base.XR Spec.Stats Model.Driver Model.Features
-     Proofs.Generic Proofs.Mask.
+From Coq Require Import ZArith Reals List.
+From Tevec Require Import Base.Prelude Base.Num Base.XR Spec.Stats Spec.Ols Spec.Extrema Model.Driver
+     Model.Features Model.Cmp Model.Norm Model.Binary Model.Reg Model.Fdiff Proofs.Generic Proofs.Norm
+     Proofs.Mask Proofs.Mask2 Proofs.Mask3 Proofs.Mask4.
 Import ListNotations.
 
 (* (1) one output per input, for EVERY add-emit-remove rolling feature, any carrier, both driver
@@ -68,10 +69,489 @@ Theorem C05_mask_ts_vkurt :
         exists o, nth_error out i = Some o /\ is_null o = below (mp_eff mp w 4) (valid (win w i xs)).
 Proof. exact mask_vkurt. Qed.
 
+(* ================================================================================================== *)
+(* (4) the remaining families.  Notation used below:
+       V = valid (win w i xs)                    the non-null values of the window max(0,i-w+1)..=i
+       P = pairs (win w i xs) (win w i ys)       its pairwise-complete observations (two-series functions)
+       below k V = (length V <? k)               "fewer than k valid observations"
+   Count-only masks are boolean equations; masks with an undefinedness condition on reals (DESIGN 5.6)
+   are stated  is_null o = true <-> below-threshold \/ undefined,  i.e. both directions.               *)
+
+(* (4a) weighted means: null iff below min_periods or no valid element.  For ewm the code's condition is
+   "1 - (1 - 2/w)^n = 0"; within a window (n <= w) that is exactly n = 0 (DESIGN 5.6) *)
+Theorem C05_ewm_undefined_iff_no_valid :
+  forall w n : nat, 1 <= w -> n <= w -> ((1 - (1 - 2 / INR w) ^ n = 0)%R <-> n = 0).
+Proof. exact ewm_undefined_iff. Qed.
+
+Theorem C05_mask_ts_vewm :
+  forall (body : bool) (w : nat) (mp : option nat) (xs : list XR), 1 <= w ->
+    exists out, ts_run (ts_vewm_f w mp) body w xs = Done out /\ length out = length xs /\
+      forall i, i < length xs ->
+        exists o, nth_error out i = Some o /\
+          is_null o = orb (below (mp_eff mp w 0) (valid (win w i xs))) (below 1 (valid (win w i xs))).
+Proof. exact mask_vewm. Qed.
+
+Theorem C05_mask_ts_vwma :
+  forall (body : bool) (w : nat) (mp : option nat) (xs : list XR), 1 <= w ->
+    exists out, ts_run (ts_vwma_f w mp) body w xs = Done out /\ length out = length xs /\
+      forall i, i < length xs ->
+        exists o, nth_error out i = Some o /\
+          is_null o = orb (below (mp_eff mp w 0) (valid (win w i xs))) (below 1 (valid (win w i xs))).
+Proof. exact mask_vwma. Qed.
+
+(* (4b) the time-trend regressions (values regressed on t = 1..n): the normal equations are singular exactly
+   for n <= 1, so the output is null iff fewer than max(min_periods', 2) valid values *)
+Theorem C05_mask_ts_vreg :
+  forall (body : bool) (w : nat) (mp : option nat) (xs : list XR), 1 <= w ->
+    exists out, ts_run (ts_vreg_f w mp) body w xs = Done out /\ length out = length xs /\
+      forall i, i < length xs ->
+        exists o, nth_error out i = Some o /\
+          is_null o = orb (below (mp_eff mp w 0) (valid (win w i xs))) (below 2 (valid (win w i xs))).
+Proof. exact mask_vreg. Qed.
+
+Theorem C05_mask_ts_vtsf :
+  forall (body : bool) (w : nat) (mp : option nat) (xs : list XR), 1 <= w ->
+    exists out, ts_run (ts_vtsf_f w mp) body w xs = Done out /\ length out = length xs /\
+      forall i, i < length xs ->
+        exists o, nth_error out i = Some o /\
+          is_null o = orb (below (mp_eff mp w 0) (valid (win w i xs))) (below 2 (valid (win w i xs))).
+Proof. exact mask_vtsf. Qed.
+
+Theorem C05_mask_ts_vreg_slope :
+  forall (body : bool) (w : nat) (mp : option nat) (xs : list XR), 1 <= w ->
+    exists out, ts_run (ts_vreg_slope_f w mp) body w xs = Done out /\ length out = length xs /\
+      forall i, i < length xs ->
+        exists o, nth_error out i = Some o /\
+          is_null o = orb (below (mp_eff mp w 0) (valid (win w i xs))) (below 2 (valid (win w i xs))).
+Proof. exact mask_vreg_slope. Qed.
+
+Theorem C05_mask_ts_vreg_intercept :
+  forall (body : bool) (w : nat) (mp : option nat) (xs : list XR), 1 <= w ->
+    exists out, ts_run (ts_vreg_intercept_f w mp) body w xs = Done out /\ length out = length xs /\
+      forall i, i < length xs ->
+        exists o, nth_error out i = Some o /\
+          is_null o = orb (below (mp_eff mp w 0) (valid (win w i xs))) (below 2 (valid (win w i xs))).
+Proof. exact mask_vreg_intercept. Qed.
+
+Theorem C05_mask_ts_vreg_resid_mean :
+  forall (body : bool) (w : nat) (mp : option nat) (xs : list XR), 1 <= w ->
+    exists out, ts_run (ts_vreg_resid_mean_f w mp) body w xs = Done out /\ length out = length xs /\
+      forall i, i < length xs ->
+        exists o, nth_error out i = Some o /\
+          is_null o = orb (below (mp_eff mp w 0) (valid (win w i xs))) (below 2 (valid (win w i xs))).
+Proof. exact mask_vreg_resid_mean. Qed.
+
+(* (4c) z-score: null iff the current element is null, or below min_periods, or zero spread in the code's
+   sense (population variance <= EPS = 1e-14; a window with <= 1 valid value has variance 0) *)
+Theorem C05_mask_ts_vzscore :
+  forall (body : bool) (w : nat) (mp : option nat) (xs : list XR), 1 <= w ->
+    exists out, ts_vzscore body w mp xs = Done out /\ length out = length xs /\
+      forall i, i < length xs ->
+        exists o, nth_error out i = Some o /\
+          (is_null o = true <->
+           nth_error xs i = Some None \/ length (valid (win w i xs)) < mp_eff mp w 0 \/
+           (popvarR (valid (win w i xs)) <= EPS)%R).
+Proof. exact mask_vzscore. Qed.
+
+Theorem C05_zero_spread_below_two :
+  forall V : list R, length V <= 1 -> (popvarR V <= EPS)%R.
+Proof. exact popvar_le_eps_single. Qed.
+
+(* (4d) min-max normalisation (lo / hi: the sentinels T::Inner::min_() / max_(), DESIGN 5.2): null iff the
+   current element is null, or below min_periods, or greatest = least valid element of the window *)
+Theorem C05_mask_ts_vminmaxnorm :
+  forall (lo hi : R) (body : bool) (w : nat) (mp : option nat) (xs : list XR), 1 <= w ->
+    (forall r, In (Some r) xs -> (lo <= r <= hi)%R) ->
+    exists out, ts_vminmaxnorm (Some lo) (Some hi) body w mp xs = Done out /\ length out = length xs /\
+      forall i, i < length xs ->
+        exists o, nth_error out i = Some o /\
+          (is_null o = true <->
+           nth_error xs i = Some None \/ length (valid (win w i xs)) < mp_eff mp w 0 \/
+           lmaxR (valid (win w i xs)) = lminR (valid (win w i xs))).
+Proof. exact mask_vminmaxnorm. Qed.
+
+(* (4e) two-series statistics over the pairwise-complete observations P *)
+Theorem C05_mask_ts_vcov :
+  forall (body : bool) (w : nat) (mp : option nat) (xs ys : list XR), 1 <= w -> length xs = length ys ->
+    exists out, ts_run2 (ts_vcov_f w mp) body w xs ys = Done out /\ length out = length xs /\
+      forall i, i < length xs ->
+        exists o, nth_error out i = Some o /\
+          is_null o = (length (pairs (win w i xs) (win w i ys)) <? mp_eff mp w 2).
+Proof. exact mask_vcov. Qed.
+
+(* correlation: undefined when either population variance is <= EPS (zero spread) *)
+Theorem C05_mask_ts_vcorr :
+  forall (body : bool) (w : nat) (mp : option nat) (xs ys : list XR), 1 <= w -> length xs = length ys ->
+    exists out, ts_run2 (ts_vcorr_f w mp) body w xs ys = Done out /\ length out = length xs /\
+      forall i, i < length xs ->
+        let P := pairs (win w i xs) (win w i ys) in
+        exists o, nth_error out i = Some o /\
+          (is_null o = true <->
+           length P < mp_eff mp w 0 \/ (popvarR (map fst P) <= EPS)%R \/ (popvarR (map snd P) <= EPS)%R).
+Proof. exact mask_vcorr. Qed.
+
+(* regressions of the first series on the second: undefined iff the normal equations are singular,
+   detB P = n Sbb - Sb^2 = 0, i.e. the regressor is constant over P (C04_singular_iff_constant_regressor;
+   in particular whenever P has <= 1 observation, C04_defined_needs_two_observations) *)
+Theorem C05_mask_ts_vregx_alpha :
+  forall (body : bool) (w : nat) (mp : option nat) (xs ys : list XR), 1 <= w -> length xs = length ys ->
+    exists out, ts_run2 (ts_vregx_alpha_f w mp) body w xs ys = Done out /\ length out = length xs /\
+      forall i, i < length xs ->
+        let P := pairs (win w i xs) (win w i ys) in
+        exists o, nth_error out i = Some o /\
+          (is_null o = true <-> length P < mp_eff mp w 0 \/ detB P = 0%R).
+Proof. exact mask_vregx_alpha. Qed.
+
+Theorem C05_mask_ts_vregx_beta :
+  forall (body : bool) (w : nat) (mp : option nat) (xs ys : list XR), 1 <= w -> length xs = length ys ->
+    exists out, ts_run2 (ts_vregx_beta_f w mp) body w xs ys = Done out /\ length out = length xs /\
+      forall i, i < length xs ->
+        let P := pairs (win w i xs) (win w i ys) in
+        exists o, nth_error out i = Some o /\
+          (is_null o = true <-> length P < mp_eff mp w 0 \/ detB P = 0%R).
+Proof. exact mask_vregx_beta. Qed.
+
+(* ts_vregx_all emits (alpha, beta, SSE): each component has the same mask *)
+Theorem C05_mask_ts_vregx_all :
+  forall (body : bool) (w : nat) (mp : option nat) (xs ys : list XR), 1 <= w -> length xs = length ys ->
+    exists out, ts_run2 (ts_vregx_all_f w mp) body w xs ys = Done out /\ length out = length xs /\
+      forall i, i < length xs ->
+        let P := pairs (win w i xs) (win w i ys) in
+        exists o, nth_error out i = Some o /\
+          (is_null (fst (fst o)) = true <-> length P < mp_eff mp w 0 \/ detB P = 0%R) /\
+          (is_null (snd (fst o)) = true <-> length P < mp_eff mp w 0 \/ detB P = 0%R) /\
+          (is_null (snd o) = true <-> length P < mp_eff mp w 0 \/ detB P = 0%R).
+Proof. exact mask_vregx_all. Qed.
+
+(* residual mean / std / skew (index-form driver): additionally the skewness needs 3 observations *)
+Theorem C05_mask_ts_vregx_resid :
+  forall (k : rstat) (body : bool) (w : nat) (mp : option nat) (xs ys : list XR),
+    1 <= w -> length xs = length ys ->
+    exists out, ts_vregx_resid k body w mp xs ys = Done out /\ length out = length xs /\
+      forall i, i < length xs ->
+        let P := pairs (win w i xs) (win w i ys) in
+        exists o, nth_error out i = Some o /\
+          (is_null o = true <->
+           length P < mp_eff mp w 0 \/ detB P = 0%R \/ (k = RSkew /\ length P < 3)).
+Proof. exact mask_vregx_resid. Qed.
+
+(* (4f) extrema and arg-extrema: integer carrier, ANY null dictionary, axiom-free.  The effective min_periods
+   of this family is cmp_mp mp (cmp_window w xs) = mp or min(len, w)/2 (DESIGN 5.3); null iff the valid count
+   is below it or the window has no valid element.  onull = is_null for any option type. *)
+Theorem C05_cmp_effective_min_periods :
+  forall (T : Type) (mp : option nat) (w : nat) (xs : list T),
+    cmp_mp mp (cmp_window w xs) = match mp with Some m => m | None => Nat.min (length xs) w / 2 end.
+Proof. intros T. exact (@cmp_mp_value T). Qed.
+
+Theorem C05_cmp_effective_min_periods_stable :
+  forall (T : Type) (mp : option nat) (w : nat) (xs : list T),
+    (mp <> None \/ w <= length xs) ->
+    cmp_mp mp (cmp_window w xs) = match mp with Some m => m | None => w / 2 end.
+Proof. intros T. exact (@cmp_mp_stable T). Qed.
+
+Theorem C05_mask_ts_vmin :
+  forall (T : Type) (DT : IsNone T Z) (body : bool) (w : nat) (mp : option nat) (xs : list T),
+    1 <= w -> 1 <= length xs ->
+    exists out, ts_vmin body w mp xs = Done out /\ length out = length xs /\
+      forall i, i < length xs ->
+        exists o, nth_error out i = Some o /\
+          onull o = orb (length (validZ (win w i (map to_opt xs))) <? cmp_mp mp (cmp_window w xs))
+                        (length (validZ (win w i (map to_opt xs))) <? 1).
+Proof. intros T DT. exact mask_vmin. Qed.
+
+Theorem C05_mask_ts_vmax :
+  forall (T : Type) (DT : IsNone T Z) (body : bool) (w : nat) (mp : option nat) (xs : list T),
+    1 <= w -> 1 <= length xs ->
+    exists out, ts_vmax body w mp xs = Done out /\ length out = length xs /\
+      forall i, i < length xs ->
+        exists o, nth_error out i = Some o /\
+          onull o = orb (length (validZ (win w i (map to_opt xs))) <? cmp_mp mp (cmp_window w xs))
+                        (length (validZ (win w i (map to_opt xs))) <? 1).
+Proof. intros T DT. exact mask_vmax. Qed.
+
+Theorem C05_mask_ts_vargmin :
+  forall (T : Type) (DT : IsNone T Z) (body : bool) (w : nat) (mp : option nat) (xs : list T),
+    1 <= w -> 1 <= length xs ->
+    exists out, ts_vargmin body w mp xs = Done out /\ length out = length xs /\
+      forall i, i < length xs ->
+        exists o, nth_error out i = Some o /\
+          onull o = orb (length (validZ (win w i (map to_opt xs))) <? cmp_mp mp (cmp_window w xs))
+                        (length (validZ (win w i (map to_opt xs))) <? 1).
+Proof. intros T DT. exact mask_vargmin. Qed.
+
+Theorem C05_mask_ts_vargmax :
+  forall (T : Type) (DT : IsNone T Z) (body : bool) (w : nat) (mp : option nat) (xs : list T),
+    1 <= w -> 1 <= length xs ->
+    exists out, ts_vargmax body w mp xs = Done out /\ length out = length xs /\
+      forall i, i < length xs ->
+        exists o, nth_error out i = Some o /\
+          onull o = orb (length (validZ (win w i (map to_opt xs))) <? cmp_mp mp (cmp_window w xs))
+                        (length (validZ (win w i (map to_opt xs))) <? 1).
+Proof. intros T DT. exact mask_vargmax. Qed.
+
+(* rolling rank (rank arithmetic in XR): null iff the current element is null (null_at) or the valid count of
+   the window, current element included, is below the effective min_periods *)
+Theorem C05_mask_ts_vrank :
+  forall (T : Type) (DT : IsNone T Z) (body : bool) (w : nat) (mp : option nat) (pct rev : bool)
+         (xs : list T),
+    1 <= w -> 1 <= length xs ->
+    exists out, ts_vrank (B := XR) body w mp pct rev xs = Done out /\ length out = length xs /\
+      forall i, i < length xs ->
+        exists o, nth_error out i = Some o /\
+          is_null o = orb (null_at (map to_opt xs) i)
+                          (length (validZ (win w i (map to_opt xs))) <? cmp_mp mp (cmp_window w xs)).
+Proof. intros T DT. exact mask_vrank. Qed.
+
+(* DESIGN 5.3 corollaries: explicit min_periods (any length) or omitted with len >= w -> the property's
+   threshold `min_periods or floor(w/2)` *)
+Corollary C05_mask_ts_vmin_stable :
+  forall (T : Type) (DT : IsNone T Z) (body : bool) (w : nat) (mp : option nat) (xs : list T),
+    1 <= w -> 1 <= length xs -> (mp <> None \/ w <= length xs) ->
+    exists out, ts_vmin body w mp xs = Done out /\ length out = length xs /\
+      forall i, i < length xs ->
+        exists o, nth_error out i = Some o /\
+          onull o = orb (length (validZ (win w i (map to_opt xs))) <? match mp with Some m => m | None => w / 2 end)
+                        (length (validZ (win w i (map to_opt xs))) <? 1).
+Proof. intros T DT. exact mask_vmin_stable. Qed.
+
+Corollary C05_mask_ts_vmax_stable :
+  forall (T : Type) (DT : IsNone T Z) (body : bool) (w : nat) (mp : option nat) (xs : list T),
+    1 <= w -> 1 <= length xs -> (mp <> None \/ w <= length xs) ->
+    exists out, ts_vmax body w mp xs = Done out /\ length out = length xs /\
+      forall i, i < length xs ->
+        exists o, nth_error out i = Some o /\
+          onull o = orb (length (validZ (win w i (map to_opt xs))) <? match mp with Some m => m | None => w / 2 end)
+                        (length (validZ (win w i (map to_opt xs))) <? 1).
+Proof. intros T DT. exact mask_vmax_stable. Qed.
+
+Corollary C05_mask_ts_vargmin_stable :
+  forall (T : Type) (DT : IsNone T Z) (body : bool) (w : nat) (mp : option nat) (xs : list T),
+    1 <= w -> 1 <= length xs -> (mp <> None \/ w <= length xs) ->
+    exists out, ts_vargmin body w mp xs = Done out /\ length out = length xs /\
+      forall i, i < length xs ->
+        exists o, nth_error out i = Some o /\
+          onull o = orb (length (validZ (win w i (map to_opt xs))) <? match mp with Some m => m | None => w / 2 end)
+                        (length (validZ (win w i (map to_opt xs))) <? 1).
+Proof. intros T DT. exact mask_vargmin_stable. Qed.
+
+Corollary C05_mask_ts_vargmax_stable :
+  forall (T : Type) (DT : IsNone T Z) (body : bool) (w : nat) (mp : option nat) (xs : list T),
+    1 <= w -> 1 <= length xs -> (mp <> None \/ w <= length xs) ->
+    exists out, ts_vargmax body w mp xs = Done out /\ length out = length xs /\
+      forall i, i < length xs ->
+        exists o, nth_error out i = Some o /\
+          onull o = orb (length (validZ (win w i (map to_opt xs))) <? match mp with Some m => m | None => w / 2 end)
+                        (length (validZ (win w i (map to_opt xs))) <? 1).
+Proof. intros T DT. exact mask_vargmax_stable. Qed.
+
+Corollary C05_mask_ts_vrank_stable :
+  forall (T : Type) (DT : IsNone T Z) (body : bool) (w : nat) (mp : option nat) (pct rev : bool)
+         (xs : list T),
+    1 <= w -> 1 <= length xs -> (mp <> None \/ w <= length xs) ->
+    exists out, ts_vrank (B := XR) body w mp pct rev xs = Done out /\ length out = length xs /\
+      forall i, i < length xs ->
+        exists o, nth_error out i = Some o /\
+          is_null o = orb (null_at (map to_opt xs) i)
+                          (length (validZ (win w i (map to_opt xs))) <? match mp with Some m => m | None => w / 2 end).
+Proof. intros T DT. exact mask_vrank_stable. Qed.
+
+(* (4g) fractional difference.  Plain ts_fdiff on a null-free series: one output per input, never null;
+   ts_vfdiff: null exactly below min_periods (the weighted sum over the valid elements is never null) *)
+Theorem C05_mask_ts_fdiff :
+  forall (body : bool) (d : R) (w : nat) (rs : list R), 1 <= w ->
+    exists out, ts_fdiff body (Some d) w (fun x : XR => x) (map Some rs) = Done out /\
+      length out = length rs /\
+      forall i, i < length rs -> exists o, nth_error out i = Some o /\ is_null o = false.
+Proof. exact mask_fdiff. Qed.
+
+Theorem C05_mask_ts_vfdiff :
+  forall (body : bool) (d : R) (w : nat) (mp : option nat) (xs : list XR), 1 <= w ->
+    exists out, ts_vfdiff body (Some d) w mp xs = Done out /\ length out = length xs /\
+      forall i, i < length xs ->
+        exists o, nth_error out i = Some o /\
+          is_null o = below (mp_eff mp w 0) (valid (win w i xs)).
+Proof. exact mask_vfdiff. Qed.
+
+(* (5) length / no panic / empty input for the index-form drivers (window-index callbacks).
+   (a) empty series: the empty result for EVERY window (0 included), every carrier and null dictionary,
+       both bodies — nothing is evaluated, in particular no `window - 1` underflow (repaired ts_vrank) *)
+Theorem C05_index_form_empty_in_empty_out :
+  forall (A : Type) (NA : Num A) (T : Type) (DT : IsNone T A) (body : bool) (w : nat) (mp : option nat),
+    ts_vmin body w mp (@nil T) = Done [] /\ ts_vmax body w mp (@nil T) = Done [] /\
+    ts_vargmin body w mp (@nil T) = Done [] /\ ts_vargmax body w mp (@nil T) = Done [] /\
+    (forall (B : Type) (NB : Num B) (pct rev : bool), ts_vrank (B := B) body w mp pct rev (@nil T) = Done []) /\
+    (forall tmin tmax : A, ts_vminmaxnorm tmin tmax body w mp (@nil T) = Done []) /\
+    (forall (T2 : Type) (D2 : IsNone T2 A) (k : rstat) (ys : list T2),
+        ts_vregx_resid k body w mp (@nil T) ys = Done []).
+Proof. exact index_form_empty. Qed.
+
+(* (b) every series (empty or not), every window >= 1 — window > len included: this family clamps the window
+       to the length — both bodies: a fully written output of the input length.  Axiom-free for the extrema. *)
+Theorem C05_extrema_one_output_per_input :
+  forall (T : Type) (DT : IsNone T Z) (body : bool) (w : nat) (mp : option nat) (xs : list T), 1 <= w ->
+    (exists out, ts_vmin body w mp xs = Done out /\ length out = length xs) /\
+    (exists out, ts_vmax body w mp xs = Done out /\ length out = length xs) /\
+    (exists out, ts_vargmin body w mp xs = Done out /\ length out = length xs) /\
+    (exists out, ts_vargmax body w mp xs = Done out /\ length out = length xs).
+Proof. intros T DT. exact extrema_total. Qed.
+
+Theorem C05_rank_one_output_per_input :
+  forall (T : Type) (DT : IsNone T Z) (body : bool) (w : nat) (mp : option nat) (pct rev : bool)
+         (xs : list T), 1 <= w ->
+    exists out, ts_vrank (B := XR) body w mp pct rev xs = Done out /\ length out = length xs.
+Proof. intros T DT. exact rank_total. Qed.
+
+(* (c) a window of 0 over a non-empty series is rejected by the driver's `assert!(window > 0)` — for any
+       window-index callback, both bodies (the statements above therefore require 1 <= w) *)
+Theorem C05_index_form_window_zero_rejected :
+  forall (T St O : Type) (body : bool) (cb : St -> option nat * nat * T -> res (St * O)) (s0 : St)
+         (xs : list T),
+    1 <= length xs -> idx_run body 0 cb s0 xs = Panicked AssertFail.
+Proof. exact @idx_run_window0. Qed.
+
+(* (6) the plain families ts_sum .. ts_kurt, ts_ewm, ts_wma (the same closures with the never-null dictionary,
+   theorems C01_plain_family_...) on a null-free series: the same masks, the valid count being the window length *)
+Theorem C05_mask_ts_sum :
+  forall (body : bool) (w : nat) (mp : option nat) (rs : list R), 1 <= w ->
+    exists out, ts_run (ts_vsum_f (DT := IsNone_never) w mp) body w (map Some rs) = Done out /\
+      length out = length rs /\
+      forall i, i < length rs ->
+        exists o, nth_error out i = Some o /\ is_null o = below (mp_eff mp w 0) (win w i rs).
+Proof. exact mask_plain_sum. Qed.
+
+Theorem C05_mask_ts_mean :
+  forall (body : bool) (w : nat) (mp : option nat) (rs : list R), 1 <= w ->
+    exists out, ts_run (ts_vmean_f (DT := IsNone_never) w mp) body w (map Some rs) = Done out /\
+      length out = length rs /\
+      forall i, i < length rs ->
+        exists o, nth_error out i = Some o /\ is_null o = orb (below (mp_eff mp w 0) (win w i rs)) (below 1 (win w i rs)).
+Proof. exact mask_plain_mean. Qed.
+
+Theorem C05_mask_ts_var :
+  forall (body : bool) (w : nat) (mp : option nat) (rs : list R), 1 <= w ->
+    exists out, ts_run (ts_vvar_f (DT := IsNone_never) w mp) body w (map Some rs) = Done out /\
+      length out = length rs /\
+      forall i, i < length rs ->
+        exists o, nth_error out i = Some o /\ is_null o = below (mp_eff mp w 2) (win w i rs).
+Proof. exact mask_plain_var. Qed.
+
+Theorem C05_mask_ts_std :
+  forall (body : bool) (w : nat) (mp : option nat) (rs : list R), 1 <= w ->
+    exists out, ts_run (ts_vstd_f (DT := IsNone_never) w mp) body w (map Some rs) = Done out /\
+      length out = length rs /\
+      forall i, i < length rs ->
+        exists o, nth_error out i = Some o /\ is_null o = below (mp_eff mp w 2) (win w i rs).
+Proof. exact mask_plain_std. Qed.
+
+Theorem C05_mask_ts_skew :
+  forall (body : bool) (w : nat) (mp : option nat) (rs : list R), 1 <= w ->
+    exists out, ts_run (ts_vskew_f (DT := IsNone_never) w mp) body w (map Some rs) = Done out /\
+      length out = length rs /\
+      forall i, i < length rs ->
+        exists o, nth_error out i = Some o /\ is_null o = below (mp_eff mp w 3) (win w i rs).
+Proof. exact mask_plain_skew. Qed.
+
+Theorem C05_mask_ts_kurt :
+  forall (body : bool) (w : nat) (mp : option nat) (rs : list R), 1 <= w ->
+    exists out, ts_run (ts_vkurt_f (DT := IsNone_never) w mp) body w (map Some rs) = Done out /\
+      length out = length rs /\
+      forall i, i < length rs ->
+        exists o, nth_error out i = Some o /\ is_null o = below (mp_eff mp w 4) (win w i rs).
+Proof. exact mask_plain_kurt. Qed.
+
+Theorem C05_mask_ts_ewm :
+  forall (body : bool) (w : nat) (mp : option nat) (rs : list R), 1 <= w ->
+    exists out, ts_run (ts_vewm_f (DT := IsNone_never) w mp) body w (map Some rs) = Done out /\
+      length out = length rs /\
+      forall i, i < length rs ->
+        exists o, nth_error out i = Some o /\ is_null o = orb (below (mp_eff mp w 0) (win w i rs)) (below 1 (win w i rs)).
+Proof. exact mask_plain_ewm. Qed.
+
+Theorem C05_mask_ts_wma :
+  forall (body : bool) (w : nat) (mp : option nat) (rs : list R), 1 <= w ->
+    exists out, ts_run (ts_vwma_f (DT := IsNone_never) w mp) body w (map Some rs) = Done out /\
+      length out = length rs /\
+      forall i, i < length rs ->
+        exists o, nth_error out i = Some o /\ is_null o = orb (below (mp_eff mp w 0) (win w i rs)) (below 1 (win w i rs)).
+Proof. exact mask_plain_wma. Qed.
+
+Example C05_example_plain_sum :
+  exists out, ts_run (ts_vsum_f (A := XR) (DT := IsNone_never) 2 None) true 2 (map Some [1%R; 2%R; 3%R]) = Done out /\
+    (exists o, nth_error out 0 = Some o /\ is_null o = false).
+Proof.
+  destruct (C05_mask_ts_sum true 2 None [1%R; 2%R; 3%R] ltac:(auto)) as (out & H1 & _ & H3).
+  exists out. split; [exact H1|exact (H3 0 ltac:(cbn; auto))].
+Qed.
+
 (* non-vacuity: a window of 2 over [1, NaN, 3] with min_periods 2 *)
 Example C05_example :
   exists out, ts_run (ts_vsum_f (A := XR) 2 (Some 2)) true 2 [Some 1%R; None; Some 3%R] = Done out /\ length out = 3.
 Proof. apply C05_one_output_per_input. auto. Qed.
+
+(* non-vacuity of (4)-(5): every premise combination is satisfiable and the masks take both values *)
+(* ewm / trend: [NaN, 1, 3], window 2, min_periods 0 — position 0 has no valid value (null), position 2 has two *)
+Example C05_example_ewm_both_values :
+  exists out, ts_run (ts_vewm_f (A := XR) 2 (Some 0)) false 2 [None; Some 1%R; Some 3%R] = Done out /\
+    (exists o, nth_error out 0 = Some o /\ is_null o = true) /\
+    (exists o, nth_error out 2 = Some o /\ is_null o = false).
+Proof.
+  destruct (C05_mask_ts_vewm false 2 (Some 0) [None; Some 1%R; Some 3%R] ltac:(auto)) as (out & H1 & _ & H3).
+  exists out. split; [exact H1|]. split; [exact (H3 0 ltac:(cbn; auto))|exact (H3 2 ltac:(cbn; auto))].
+Qed.
+Example C05_example_trend_both_values :
+  exists out, ts_run (ts_vreg_slope_f (A := XR) 2 (Some 0)) true 2 [None; Some 1%R; Some 3%R] = Done out /\
+    (exists o, nth_error out 1 = Some o /\ is_null o = true) /\
+    (exists o, nth_error out 2 = Some o /\ is_null o = false).
+Proof.
+  destruct (C05_mask_ts_vreg_slope true 2 (Some 0) [None; Some 1%R; Some 3%R] ltac:(auto)) as (out & H1 & _ & H3).
+  exists out. split; [exact H1|]. split; [exact (H3 1 ltac:(cbn; auto))|exact (H3 2 ltac:(cbn; auto))].
+Qed.
+(* two series of equal length with nulls in both: the premises of (4e) *)
+Example C05_example_cov :
+  exists out, ts_run2 (ts_vcov_f (A := XR) 2 None) true 2
+                      [Some 1%R; None; Some 3%R; Some 4%R] [Some 2%R; Some 5%R; Some 0%R; Some 1%R] = Done out /\
+    (exists o, nth_error out 1 = Some o /\ is_null o = true) /\
+    (exists o, nth_error out 3 = Some o /\ is_null o = false).
+Proof.
+  destruct (C05_mask_ts_vcov true 2 None [Some 1%R; None; Some 3%R; Some 4%R]
+              [Some 2%R; Some 5%R; Some 0%R; Some 1%R] ltac:(auto) ltac:(reflexivity)) as (out & H1 & _ & H3).
+  exists out. split; [exact H1|]. split; [exact (H3 1 ltac:(cbn; auto))|exact (H3 3 ltac:(cbn; auto))].
+Qed.
+Example C05_example_resid_premises :
+  exists out, ts_vregx_resid (A := XR) RSkew false 3 (Some 1) [Some 1%R; None] [Some 2%R; Some 5%R] = Done out /\
+    length out = 2.
+Proof.
+  destruct (C05_mask_ts_vregx_resid RSkew false 3 (Some 1) [Some 1%R; None] [Some 2%R; Some 5%R]
+              ltac:(auto) ltac:(reflexivity)) as (out & H1 & H2 & _).
+  exists out. split; assumption.
+Qed.
+(* the bounds premise of the min-max normalisation *)
+Example C05_example_minmaxnorm_premise :
+  forall r, In (Some r) [Some 1%R; None; Some 3%R] -> (0 <= r <= 4)%R.
+Proof. intros r [H|[H|[H|[]]]]; try discriminate; injection H as <-; split; Lra.lra. Qed.
+(* extrema family, Option<i32>-like elements: w = 3 > len = 2 with explicit min_periods (5.3 premise, left
+   disjunct), and len >= w with omitted min_periods (right disjunct); the mask takes both values *)
+Definition C05_Dopt : IsNone (option Z) Z := IsNone_option.
+Example C05_example_vmin_both_values :
+  ts_vmin (DT := C05_Dopt) true 3 (Some 1) [None; Some 2%Z] = Done [None; Some 2%Z] /\
+  (Some 1 <> None \/ 3 <= length [None; Some 2%Z]).
+Proof. split; [vm_compute; reflexivity|left; discriminate]. Qed.
+Example C05_example_vrank_premises :
+  1 <= 2 /\ 1 <= length [Some 5%Z; None; Some 2%Z] /\ ((@None nat) <> None \/ 2 <= length [Some 5%Z; None; Some 2%Z]).
+Proof. split; [auto|]. split; [cbn; auto|right; cbn; auto]. Qed.
+Example C05_example_window_zero :
+  ts_vmin (DT := C05_Dopt) false 0 None [Some 1%Z] = Panicked AssertFail /\
+  ts_vmin (DT := C05_Dopt) false 0 None [] = Done [].
+Proof. split; vm_compute; reflexivity. Qed.
+(* vfdiff: [1, NaN, 3], window 2, min_periods 2: position 1 holds one valid value (null), d = 1/2 *)
+Example C05_example_vfdiff :
+  exists out, ts_vfdiff (A := XR) true (Some (1 / 2)%R) 2 (Some 2) [Some 1%R; None; Some 3%R] = Done out /\
+    (exists o, nth_error out 1 = Some o /\ is_null o = true).
+Proof.
+  destruct (C05_mask_ts_vfdiff true (1 / 2)%R 2 (Some 2) [Some 1%R; None; Some 3%R] ltac:(auto))
+    as (out & H1 & _ & H3).
+  exists out. split; [exact H1|exact (H3 1 ltac:(cbn; auto))].
+Qed.
 
 Print Assumptions C05_one_output_per_input.
 Print Assumptions C05_empty_in_empty_out.
@@ -82,3 +562,46 @@ Print Assumptions C05_mask_ts_vvar.
 Print Assumptions C05_mask_ts_vstd.
 Print Assumptions C05_mask_ts_vskew.
 Print Assumptions C05_mask_ts_vkurt.
+Print Assumptions C05_ewm_undefined_iff_no_valid.
+Print Assumptions C05_mask_ts_vewm.
+Print Assumptions C05_mask_ts_vwma.
+Print Assumptions C05_mask_ts_vreg.
+Print Assumptions C05_mask_ts_vtsf.
+Print Assumptions C05_mask_ts_vreg_slope.
+Print Assumptions C05_mask_ts_vreg_intercept.
+Print Assumptions C05_mask_ts_vreg_resid_mean.
+Print Assumptions C05_mask_ts_vzscore.
+Print Assumptions C05_zero_spread_below_two.
+Print Assumptions C05_mask_ts_vminmaxnorm.
+Print Assumptions C05_mask_ts_vcov.
+Print Assumptions C05_mask_ts_vcorr.
+Print Assumptions C05_mask_ts_vregx_alpha.
+Print Assumptions C05_mask_ts_vregx_beta.
+Print Assumptions C05_mask_ts_vregx_all.
+Print Assumptions C05_mask_ts_vregx_resid.
+Print Assumptions C05_cmp_effective_min_periods.
+Print Assumptions C05_cmp_effective_min_periods_stable.
+Print Assumptions C05_mask_ts_vmin.
+Print Assumptions C05_mask_ts_vmax.
+Print Assumptions C05_mask_ts_vargmin.
+Print Assumptions C05_mask_ts_vargmax.
+Print Assumptions C05_mask_ts_vrank.
+Print Assumptions C05_mask_ts_vmin_stable.
+Print Assumptions C05_mask_ts_vmax_stable.
+Print Assumptions C05_mask_ts_vargmin_stable.
+Print Assumptions C05_mask_ts_vargmax_stable.
+Print Assumptions C05_mask_ts_vrank_stable.
+Print Assumptions C05_mask_ts_fdiff.
+Print Assumptions C05_mask_ts_vfdiff.
+Print Assumptions C05_index_form_empty_in_empty_out.
+Print Assumptions C05_extrema_one_output_per_input.
+Print Assumptions C05_rank_one_output_per_input.
+Print Assumptions C05_index_form_window_zero_rejected.
+Print Assumptions C05_mask_ts_sum.
+Print Assumptions C05_mask_ts_mean.
+Print Assumptions C05_mask_ts_var.
+Print Assumptions C05_mask_ts_std.
+Print Assumptions C05_mask_ts_skew.
+Print Assumptions C05_mask_ts_kurt.
+Print Assumptions C05_mask_ts_ewm.
+Print Assumptions C05_mask_ts_wma.
